@@ -4,6 +4,7 @@ Model: `Model/Index.lean` (selector normalisation, support table, access kernels
 loops over nalgebra indexing), spec: `Spec/Index.lean` (`at1`, `atLin1`, `select*`).
 -/
 import MechVerif.Lemmas.Index
+import MechVerif.Gen.AccessKernels
 namespace MechVerif.Index
 open MechVerif.Num MechVerif.Mat
 
@@ -198,3 +199,60 @@ example : access (⟨2, 3, [11, 21, 12, 22, 13, 23]⟩ : Mat Nat) (.mask [true, 
 example : inRange [2, 1] 2 := by decide
 
 end MechVerif.Index
+
+/-! ### the access kernels as they are written in the source
+
+`Gen/AccessKernels.lean` is regenerated from src/interpreter/src/stdlib/access/matrix.rs on every run
+(`tools/extract_access.py`); its own theorem `C03_access_kernels_as_written_ok` is a `decide` proof over the
+extracted table.  The theorems here carry that table over to the model the theorems above are about. -/
+namespace MechVerif.AccessIR
+open MechVerif.Num MechVerif.Mat MechVerif.Index
+
+variable {α : Type}
+
+/-- the eighteen kernel macros the access arms are generated from are all extracted -/
+theorem C03_every_access_kernel_extracted :
+    ["access_1d", "access_2d", "access_1d_slice", "access_1d_slice_bool", "access_1d_slice_bool_v",
+     "access_2d_row_slice_bool", "access_2d_col_slice_bool", "access_2d_slice", "access_2d_slice_bool",
+     "access_2d_slice_bool2", "access_2d_slice_bool_bool", "access_2d_slice_all", "access_2d_slice_all_bool",
+     "access_2d_row_slice", "access_2d_col_slice", "access_col", "access_row", "access_1d_all"].all
+      (fun n => Gen.AccessKernels.kernels.any (fun e => e.1 == n)) = true := by decide
+
+theorem written_ok (name : String) (ir : AIR) (h : (name, ir) ∈ Gen.AccessKernels.kernels) : airOk ir = true := by
+  have hall := Gen.AccessKernels.C03_access_kernels_as_written_ok
+  rw [List.all_eq_true] at hall
+  exact hall (name, ir) h
+
+/-- **The linear kernels as written read the addressed elements.**  Every extracted kernel that hands one
+    coordinate to `source.index(…)` reads — for every matrix, every index argument, every size — exactly the
+    elements `gather1` reads for the selector its argument holds, in that order; in particular an index of 0 or
+    past the last element, and a mask of another length than the matrix, make it fail. -/
+theorem C03_written_linear_kernels_read_addressed (name : String) (ir : AIR)
+    (h : (name, ir) ∈ Gen.AccessKernels.kernels) (hrow : ir.row = none) (m : Mat α) (args : List Arg)
+    (s : Sel) (hs : selOf args ir.col = some s) :
+    run ir m args = bindE (selIxs s (m.rows * m.cols)) (gather1 m) :=
+  run_linear ir (written_ok name ir h) hrow m args s hs
+
+/-- **The two-index kernels as written read the addressed sub-matrix, column by column.**  Every extracted
+    kernel that hands a (row, column) pair to `source.index(…)` reads exactly what `gather2` reads for the two
+    selectors its arguments hold: element (a, b) of the result is x[R_a, C_b], the result is filled in
+    column-major order, and a row or column index that addresses nothing, or a mask whose length is not the
+    extent of its dimension, makes it fail.  (`C03_slice_reads_addressed` and `C03_slice_rejects_out_of_range`
+    above are stated for `gather2`.) -/
+theorem C03_written_two_index_kernels_read_addressed (name : String) (ir : AIR)
+    (h : (name, ir) ∈ Gen.AccessKernels.kernels) (rowAx : Axis) (hrow : ir.row = some rowAx) (m : Mat α)
+    (args : List Arg) (s1 s2 : Sel) (hs1 : selOf args rowAx = some s1) (hs2 : selOf args ir.col = some s2) :
+    run ir m args = bindE (selIxs s1 m.rows) (fun R => bindE (selIxs s2 m.cols) (fun C => gather2 m R C)) :=
+  run_two ir (written_ok name ir h) rowAx hrow m args s1 s2 hs1 hs2
+
+/-! non-vacuity: `x[[3 1], :]` of a 3×2 matrix through the extracted `access_2d_slice_all`; a kernel with the two
+    loops exchanged, or without the `- 1`, is refused -/
+example : run ⟨some (.vec 0 true (.argLen 0)), .all (.dim .cols), true, true⟩
+    (⟨3, 2, [1, 2, 3, 4, 5, 6]⟩ : Mat Nat) [.ixs [3, 1]] = .ok [3, 1, 6, 4] := by decide
+example : ("access_2d_slice_all", (⟨some (.vec 0 true (.argLen 0)), .all (.dim .cols), true, true⟩ : AIR))
+    ∈ Gen.AccessKernels.kernels := by decide
+example : airOk ⟨some (.vec 0 true (.argLen 0)), .all (.dim .cols), false, true⟩ = false := by decide
+example : airOk ⟨some (.vec 0 false (.argLen 0)), .all (.dim .cols), true, true⟩ = false := by decide
+example : airOk ⟨some (.mask 0 (.argLen 0) none), .all (.dim .cols), true, true⟩ = false := by decide
+
+end MechVerif.AccessIR
